@@ -156,7 +156,7 @@ var DefaultWeights = map[string]int{
 	"create": 14, "recreate": 4, "sched": 16, "filter": 4, "bind": 5, "phase": 7, "delete": 10, "deliver": 12, "drop": 1,
 	"unbind": 10, "resync": 4, "syncips": 2, "scale": 3, "delwl": 1, "mkwl": 1, "apirelease": 3, "poolapi": 2,
 	"poolobj": 1, "reload": 0, "reserve": 1, "unreserve": 1, "fipevent": 1, "restart": 1, "synclister": 0,
-	"quiesce": 2, "episode": 0,
+	"quiesce": 2, "episode": 0, "terminate": 2,
 }
 
 func genWLs(t *rapid.T, hp *HistoryParams, topo Topo) ([]WL, []PoolObj) {
@@ -419,7 +419,7 @@ func GenHistory(t *rapid.T, hp *HistoryParams) Case {
 	var kinds []string
 	for _, k := range []string{"recreate", "create", "sched", "filter", "bind", "phase", "delete", "deliver", "drop", "unbind", "resync",
 		"syncips", "scale", "delwl", "mkwl", "apirelease", "poolapi", "poolobj", "reload", "reserve", "unreserve", "fipevent",
-		"restart", "synclister", "quiesce", "episode"} {
+		"restart", "synclister", "quiesce", "episode", "terminate"} {
 		for i := 0; i < w[k]; i++ {
 			kinds = append(kinds, k)
 		}
